@@ -60,8 +60,9 @@ impl ReuseElement {
             .get_original_element(&elref)
             .cloned()
             .ok_or_else(|| SvgdxError::ReferenceError(elref.clone()))?;
-        instance_element.expand_compound_size();
+        // (expressions are evaluated before `wh="{{2 + 3}}"` is split at white space)
         instance_element.eval_attributes(context)?;
+        instance_element.expand_compound_size();
         let instance_size = instance_element.size(context)?;
 
         // Override 'default' attr values in the target
